@@ -72,16 +72,16 @@ func tryFindFirstCharClass(node *RegexNode, ccIn **CharSet) int {
 			*ccIn = cc
 		}
 		if cc.IsMergeable() {
-			cc.addChar(node.Ch)
-			cc.negate = true
-			/*if node.Ch > 0 {
-				// Add the range before the excluded char.
-				cc.addRange(0, (node.Ch - 1))
+			// add everything but the excluded char to what was collected so far
+			// (negating the collected set would drop the members it already has)
+			var others []SingleRange
+			if node.Ch > 0 {
+				others = append(others, SingleRange{0, node.Ch - 1})
 			}
 			if node.Ch < unicode.MaxRune {
-				// Add the range after the excluded char.
-				cc.addRange(node.Ch+1, unicode.MaxRune)
-			}*/
+				others = append(others, SingleRange{node.Ch + 1, unicode.MaxRune})
+			}
+			cc.addRanges(others)
 			if node.T == NtNotone || node.M > 0 {
 				return 1
 			}
